@@ -195,6 +195,30 @@ Theorem C20_savgol_reproduces_polynomials :
 Proof. exact savgol_public. Qed.
 Print Assumptions C20_savgol_reproduces_polynomials.
 
+(* Corollary (scale invariance on the data the filter must reproduce): rescaling the abscissae x -> c x by ANY
+   non-zero c (time stamps in seconds vs sample indices, 1e-4 ... 1e3) leaves the output unchanged — it is
+   still the input — because the same samples are a polynomial of the same degree in the new variable.
+   An absolute regularisation of the normal matrix (seeded change C20-r4seed2) is not a left inverse any more. *)
+Theorem C20_savgol_scale_invariant :
+  forall (R : Type) (rO rI : R) (radd rmul rsub : R -> R -> R) (ropp : R -> R)
+         (rdiv : R -> R -> R) (rinv : R -> R),
+  field_theory rO rI radd rmul rsub ropp rdiv rinv (@eq R) ->
+  forall (minv : list (list R) -> list (list R)) (window polynom : Z) (x q : list R) (c : R),
+  c <> rO ->
+  window mod 2 = 1 -> 0 <= polynom < window -> window < Z.of_nat (length x) ->
+  length q = Z.to_nat (polynom + 1) ->
+  let half := Z.to_nat (window / 2) in
+  let xs := map (rmul c) x in
+  (forall i, (half <= i < length xs - half)%nat ->
+     let ts := map (fun xx => rsub xx (nth i xs rO)) (firstn (2 * half + 1) (skipn (i - half) xs)) in
+     left_inverse R rO rI radd rmul (Z.to_nat (polynom + 1))
+                  (minv (normal_mat R rO rI radd rmul (Z.to_nat (polynom + 1)) ts))
+                  (normal_mat R rO rI radd rmul (Z.to_nat (polynom + 1)) ts)) ->
+  savgol R rO rI radd rmul rsub minv window polynom (map (rmul c) x) (map (peval R rO rI radd rmul q) x)
+  = inr (map (peval R rO rI radd rmul q) x).
+Proof. exact savgol_scale_invariant. Qed.
+Print Assumptions C20_savgol_scale_invariant.
+
 (* ---------------------------------------------------------------------------
    6. cadzow: every trace index occurs in the Toeplitz-like index matrix of any size,
    and for any layout with distinct sites every trace occurs in the block trajectory
